@@ -366,6 +366,8 @@ func (p *Program) resolveSpecType(d *Decls, pkg *Pkg, txt string) (types.Type, s
 		if tv, err := types.Eval(p.fset, pkg.types, token.NoPos, txt); err == nil && tv.Type != nil {
 			return tv.Type, d.sortOf(tv.Type)
 		}
+	} else if tv, err := types.Eval(p.fset, nil, token.NoPos, txt); err == nil && tv.Type != nil {
+		return tv.Type, d.sortOf(tv.Type)
 	}
 	if o := types.Universe.Lookup(txt); o != nil {
 		if tn, ok := o.(*types.TypeName); ok {
